@@ -148,6 +148,32 @@ type scenario struct {
 	failEvery  int
 	panicEvery int
 	poisoned   bool
+	// destLocks > 0: the destination is safe for concurrent use on its own account and shows it - it embeds its mutex
+	// (1 sync.Mutex, 2 sync.RWMutex), so it has Lock and Unlock methods, and takes it inside Write. That lock is the
+	// destination's: a logger that borrowed it around its Write would wait for itself (round twenty-two)
+	destLocks int
+}
+
+type lockingMonitor struct {
+	sync.Mutex
+	*monitor
+}
+
+func (l *lockingMonitor) Write(p []byte) (int, error) {
+	l.Lock()
+	defer l.Unlock()
+	return l.monitor.Write(p)
+}
+
+type rwLockingMonitor struct {
+	sync.RWMutex
+	*monitor
+}
+
+func (l *rwLockingMonitor) Write(p []byte) (int, error) {
+	l.Lock()
+	defer l.Unlock()
+	return l.monitor.Write(p)
 }
 
 func (sc *scenario) opts() *logger.Options {
@@ -250,6 +276,7 @@ func genScenario(t *rapid.T) *scenario {
 		}
 		sc.scripts = append(sc.scripts, script)
 	}
+	sc.destLocks = rapid.SampledFrom([]int{0, 0, 0, 0, 1, 2}).Draw(t, "destinationEmbedsItsLock")
 	return sc
 }
 
@@ -311,7 +338,14 @@ type outcome struct {
 func runScenario(sc *scenario) (string, outcome) {
 	var oc outcome
 	mon := &monitor{yields: sc.yields, spins: sc.spins, failEvery: sc.failEvery, panicEvery: sc.panicEvery}
-	rootH := lm.NewHandler(sc.kind, mon, sc.opts())
+	var dest io.Writer = mon
+	switch sc.destLocks {
+	case 1:
+		dest = &lockingMonitor{monitor: mon}
+	case 2:
+		dest = &rwLockingMonitor{monitor: mon}
+	}
+	rootH := lm.NewHandler(sc.kind, dest, sc.opts())
 	root := logger.New(rootH)
 	shared := make([]*logger.Logger, len(sc.shared))
 	sharedH := make([]logger.Handler, len(sc.shared)) // the same derivations as handlers, for records with a time of their own
@@ -458,6 +492,9 @@ func TestScenarios(t *testing.T) {
 			t.Fatalf("%s\nscenario: %s", msg, sc.render())
 		}
 		ev.Label("handler:" + lm.HandlerNames[sc.kind])
+		if sc.destLocks > 0 {
+			ev.Label("destination_embeds_its_own_lock_and_takes_it_in_Write")
+		}
 		if oc.interleaved {
 			ev.Label("observed:goroutines_interleaved")
 		}
